@@ -239,7 +239,7 @@ var plans = map[string]*Plan{
 	},
 	"C15": {
 		Level: "exploration",
-		Rule: "four scenario kinds, cycled per worker: (a) codec - 20-60 frames with types 0..9, seq/offset/size at integer extremes, payloads 0..1 MiB incl. buffer-size boundaries, through real Wire.Write -> independent decoder (1-8 concurrent writers on one Wire) or independent encoder -> real Wire.Read, plus malformed streams; (b) matching - 1..256 goroutines on one real rpc.Client issue reads/writes/syncs/pings/unmaps with unique (offset,size), a scripted peer answers inside a bounded reorder window, with duplicates, unknown sequence numbers and per-request error replies, reply content = PRF of the request; (c) failure - as (b), the peer stalls for ever, answers one request 1.6 s late (deadline 1 s), closes, resets or sends garbage at a seeded request; (d) end-to-end - real rpc.Server over an in-memory store, 2-12 concurrent callers, history checked with porcupine against a register-per-block model; " +
+		Rule: "four scenario kinds, cycled per worker: (a) codec - 20-60 frames with types 0..9, seq/offset/size at integer extremes, payloads 0..1 MiB incl. buffer-size boundaries, through real Wire.Write -> independent decoder (1-8 concurrent writers on one Wire) or independent encoder -> real Wire.Read, plus malformed streams; (b) matching - 1..256 goroutines on one real rpc.Client issue reads/writes/syncs/pings/unmaps with unique (offset,size), a scripted peer answers inside a bounded reorder window, with duplicates, unknown sequence numbers and per-request error replies, reply content = PRF of the request; (c) failure - as (b), the peer stalls for ever, answers one request 1.9 s late (deadline 1 s), closes, resets or sends garbage at a seeded request; (d) end-to-end - real rpc.Server over an in-memory store, 2-12 concurrent callers, history checked with porcupine against a register-per-block model; " +
 			"distinct = (scenario kind, concurrency, window, fault, reorder-distance class)",
 		Assumptions: []string{
 			"the scripted peer uses the harness's own implementation of the frame format (little endian header of 30 bytes)",
